@@ -28,8 +28,13 @@ finally:
     shutil.rmtree('/verif/replays', ignore_errors=True)
 d = os.path.join('/verif/seeded', 'harmless_' + name)
 os.makedirs(d, exist_ok=True)
-shutil.copy(patch, d)
-meta = {'kind': 'behaviour-preserving rewrite', 'summary': open(os.path.join(src, 'desc.txt')).read().split('\n')[0], 'existing_suite': suite,
+if os.path.abspath(d) != os.path.abspath(src):
+    shutil.copy(patch, d)
+try:
+    summary = open(os.path.join(src, 'desc.txt')).read().split('\n')[0]
+except OSError:
+    summary = json.load(open(os.path.join(src, 'meta.json'))).get('summary', '')
+meta = {'kind': 'behaviour-preserving rewrite', 'summary': summary, 'existing_suite': suite,
         'expected': 'no check raises an alarm', 'alarms': alarms, 'proved_on_table_model_only': degraded, 'wall_s': round(time.time() - t0)}
 json.dump(meta, open(os.path.join(d, 'meta.json'), 'w'), indent=1)
 print(name, 'alarms:', alarms, 'degraded:', sorted(degraded))
